@@ -281,3 +281,14 @@ mod tests {
         assert_eq!(rsp_adu, service.response);
     }
 }
+
+/// Verification hook: run the crate-private per-connection loop on any transport.
+#[cfg(feature = "verif-hooks")]
+pub async fn verif_process<S, T>(transport: T, service: S) -> io::Result<()>
+where
+    S: Service + Send + Sync + 'static,
+    S::Request: From<RequestAdu<'static>> + Send,
+    T: AsyncRead + AsyncWrite + Unpin,
+{
+    process(Framed::new(transport, ServerCodec::default()), service).await
+}
